@@ -39,6 +39,38 @@ def gen_case(rng, cid, ncommit, with_writer, mixed_levels=False):
     return "\n".join(ls)
 
 
+def gen_staggered(rng, cid):
+    """writes that come AFTER another transaction's commit: the conflict test must look at what was committed since the
+    transaction BEGAN, not since it last wrote.  One transaction commits sequentially in the middle; the others write
+    (some of them the same key) afterwards and then commit concurrently."""
+    nkeys = rng.randint(1, 3)
+    keys = sorted(rng.sample([b"a", b"b", b"c", b"d"], nkeys))
+    ls = ["case %s roots=1" % cid, "keytab " + " ".join(k.hex() for k in keys)]
+    v = 0
+    for k in range(1, nkeys + 1):
+        v += 1
+        ls.append("set 0 %d %d 3 s" % (k, v))
+    n = rng.choice([2, 3])
+    for t in range(1, n + 1):
+        ls.append("begin " + rng.choice(LEVELS))
+    common = rng.randint(1, nkeys)
+    v += 1
+    ls.append("set 1 %d %d 3 s" % (common, v))
+    if rng.random() < 0.5:
+        v += 1
+        ls.append("set 2 %d %d 3 s" % (rng.randint(1, nkeys), v))          # an early write of a later committer
+    ls.append("commit 1")
+    for t in range(2, n + 1):
+        ws = ({common} if rng.random() < 0.8 else set()) | {rng.randint(1, nkeys) for _ in range(rng.randint(0, 1))}
+        for k in sorted(ws) or [common]:
+            v += 1
+            ls.append(rng.choice(["set %d %d %d 3 s" % (t, k, v), "del %d %d" % (t, k)]))
+    ls.append("par " + " || ".join("commit %d" % t for t in range(2, n + 1)))
+    ls += ["keys 0"] + ["get 0 %d g" % k for k in range(1, nkeys + 1)] + ["gc"] + ["get 0 %d g" % k for k in range(1, nkeys + 1)]
+    ls.append("end")
+    return "\n".join(ls)
+
+
 def sequentialisations(case):
     """(permutation, sequential case) for every order of the parallel group"""
     ls = case.split("\n")
@@ -99,6 +131,8 @@ def run(rep):
         cases.append(gen_case(rng, "p%d" % i, 2, with_writer=(i % 3 == 0), mixed_levels=(i % 5 == 4)))
     for i in range(n3):
         cases.append(gen_case(rng, "t%d" % i, 3, with_writer=(i % 2 == 0)))
+    for i in range(n2):
+        cases.append(gen_staggered(rng, "g%d" % i))
     impl = H.run_sharded(fsdbh, "hist", cases)
     viol, mism, orders = 0, 0, {}
     for c, o in zip(cases, impl):
